@@ -187,7 +187,15 @@ def gen_items(rng, cg, budget, in_math, depth, nested):
     n = rng.randint(0 if nested else 1, max(1, min(4, budget + 1)))
     items = []
     for _ in range(n):
-        items.append(gen_item(rng, cg, budget, in_math, depth, nested))
+        it = gen_item(rng, cg, budget, in_math, depth, nested)
+        items.append(it)
+        if it[0] == 'F' and it[1] == '$' and not in_math and rng.random() < 0.3:
+            # a display formula written directly behind an inline one (`$x $$$y$$`): the closing `$` must win over `$$`
+            body = list(it[2])
+            if rng.random() < 0.6 and body and body[-1][0] == 'T':
+                body = body + [('W', ' ')]
+                items[-1] = ('F', '$', body)
+            items.append(('F', '$$', [('T', rng.choice('xyz'))]))
     return fixup(rng, cg, items, in_math, nested)
 
 def is_alpha_name(name):
@@ -261,7 +269,10 @@ def fixup(rng, cg, items, in_math, nested):
                 if written:
                     if written[0][0] in ('tok',):
                         post = ' '
-                    elif rng.random() < 0.15 and written[0][0] in ('grp',):
+                    elif rng.random() < (0.4 if written[0][0] == 'br' else 0.2) and (written[0][0] == 'grp' or
+                                                 (written[0][0] == 'br' and args[0] is written[0] and
+                                                  str(cg['macros'].get(name, ['x'])[0]).rstrip('+-') == 'o')):
+                        # blanks between a control word and its first written argument (also a bracket: `\item [x]`)
                         post = rng.choice([' ', '\n'])
                 else:
                     # followed directly by the next item: a letter would extend the name; whitespace belongs to the macro
@@ -336,6 +347,55 @@ def unparse(items):
         else:
             raise ValueError(it)
     return ''.join(out)
+
+def unparse_spaced(rng, items, cg, prob=0.5, nocomment=False):
+    """the same document with blanks, newlines or a comment line written BETWEEN two arguments of a call, in front of a
+    brace-group value of an `m` slot or a bracket value of an `o` slot (slots that accept leading whitespace); the
+    structure is unchanged.  Returns (source, number of insertions, number of comment lines in front of a bracket value);
+    nocomment=True writes a blank wherever a comment line would go in front of a bracket value (same random choices)."""
+    count = [0, 0]      # insertions, of which comment lines in front of a bracket value
+    def args_src(sig, args):
+        out = []
+        seen_written = False
+        for k, a in zip(sig, args):
+            src = unparse_arg_sp(a)
+            if a[0] != 'absent':
+                kind = str(k).rstrip('+-')
+                if seen_written and rng.random() < prob and ((a[0] == 'grp' and kind == 'm') or (a[0] == 'br' and kind == 'o')):
+                    ins = rng.choice([' ', ' ', '\n', '  ', '\t', '%c\n', ' %\n '])
+                    if nocomment and a[0] == 'br' and '%' in ins:
+                        ins = ' '
+                    out.append(ins)
+                    count[0] += 1
+                    if a[0] == 'br' and '%' in ins:
+                        count[1] += 1
+                seen_written = True
+            out.append(src)
+        return ''.join(out)
+    def unparse_arg_sp(a):
+        k = a[0]
+        if k == 'br': return '[' + go(a[1]) + ']'
+        if k == 'grp': return '{' + go(a[1]) + '}'
+        if k == 'del': return a[1] + go(a[3]) + a[2]
+        return unparse_arg(a)
+    def go(its):
+        out = []
+        for it in its:
+            k = it[0]
+            if k == 'G':
+                out.append('{' + go(it[1]) + '}')
+            elif k == 'M' and it[1] in cg['macros']:
+                out.append('\\' + it[1] + it[2] + args_src(cg['macros'][it[1]], it[3]))
+            elif k == 'E' and it[1] in cg['envs']:
+                out.append('\\begin{%s}' % it[1] + args_src(cg['envs'][it[1]][0], it[2]) + go(it[3]) + '\\end{%s}' % it[1])
+            elif k == 'F':
+                out.append(it[1] + go(it[2]) + CLOSER[it[1]])
+            elif k == 'S' and it[1] in cg['specials']:
+                out.append(it[1] + args_src(cg['specials'][it[1]], it[2]))
+            else:
+                out.append(unparse([it]))
+        return ''.join(out)
+    return go(items), count[0], count[1]
 
 # ---------------------------------------------------------------- expected structure (projection)
 
@@ -514,6 +574,50 @@ def verbatim_texts(items):
 STRUCTURAL = set('{}[]$\\%')
 
 FAULTS = ['{', '}', '$', '\\(', '\\)', '\\[', '\\]', '\\begin{zz}', '\\end{zz}']
+
+def replacement_faults(items, base=0, acc=None):
+    """(pos, old, new): a closing marker replaced by a closing marker of another construct — `\\end{e}` by `\\end{zz}`,
+    `\\)` by `\\]` and conversely (the document stays "balanced" by counting but not by matching)"""
+    if acc is None:
+        acc = []
+    pos = base
+    for it in items:
+        k = it[0]
+        s = unparse([it])
+        if k == 'G':
+            replacement_faults(it[1], pos + 1, acc)
+        elif k == 'F':
+            replacement_faults(it[2], pos + len(it[1]), acc)
+            cl = CLOSER[it[1]]
+            if it[1] == '\\(':
+                acc.append((pos + len(s) - len(cl), cl, '\\]'))
+            elif it[1] == '\\[':
+                acc.append((pos + len(s) - len(cl), cl, '\\)'))
+        elif k == 'E':
+            p = pos + len('\\begin{%s}' % it[1])
+            for a in it[2]:
+                p = _arg_repl(a, p, acc)
+            replacement_faults(it[3], p, acc)
+            end = '\\end{%s}' % it[1]
+            acc.append((pos + len(s) - len(end), end, '\\end{zz}'))
+        elif k == 'M':
+            p = pos + 1 + len(it[1]) + len(it[2])
+            for a in it[3]:
+                p = _arg_repl(a, p, acc)
+        elif k == 'S':
+            p = pos + len(it[1])
+            for a in it[2]:
+                p = _arg_repl(a, p, acc)
+        pos += len(s)
+    return acc
+
+def _arg_repl(a, p, acc):
+    k = a[0]
+    if k in ('br', 'grp'):
+        replacement_faults(a[1], p + 1, acc)
+    elif k == 'del':
+        replacement_faults(a[3], p + 1, acc)
+    return p + len(unparse_arg(a))
 
 def fault_sites(items, rng, ctxname, maxn=12):
     s = unparse(items)
